@@ -20,18 +20,22 @@ import (
 
 // LeaseScenario is one generated scenario.
 type LeaseScenario struct {
-	Kind     string `json:"kind"`               // hold | death | unlockrace
-	LeaseMs  int    `json:"lease_ms"`           // lease period
-	Periods  int    `json:"periods,omitempty"`  // hold: duration in lease periods
-	FailCas  []int  `json:"fail_cas,omitempty"` // hold: renewal calls (1-based) that fail transiently
-	PhasePct int    `json:"phase_pct,omitempty"` // death: the holder dies at this % of the lease after locking or after a renewal
-	Renewals int    `json:"renewals,omitempty"`  // death: number of successful renewals before the death
-	After    bool   `json:"after,omitempty"`     // unlockrace: the renewal in flight is applied before Unlock runs
-	Same     bool   `json:"same,omitempty"`      // handoff: the second tenure is on the same Locker object (else on another provider's)
-	DelayPct int    `json:"delay_pct,omitempty"` // hold: every renewal call takes this % of the lease to reach the storage
-	Waiters  int    `json:"waiters,omitempty"`   // death: number of lockers parked in Lock() when the holder dies (default 1)
-	Wait10   int    `json:"wait10,omitempty"`    // waithold: the second locker waits this many tenths of a lease in Lock() before it gets the lock
-	OnlyExcl bool   `json:"only_excl,omitempty"` // waithold: judge mutual exclusion only (C01), not the stored record (C05)
+	Kind       string `json:"kind"`                  // hold | death | unlockrace
+	LeaseMs    int    `json:"lease_ms"`              // lease period
+	Periods    int    `json:"periods,omitempty"`     // hold: duration in lease periods
+	FailCas    []int  `json:"fail_cas,omitempty"`    // hold: renewal calls (1-based) that fail transiently
+	PhasePct   int    `json:"phase_pct,omitempty"`   // death: the holder dies at this % of the lease after locking or after a renewal
+	Renewals   int    `json:"renewals,omitempty"`    // death: number of successful renewals before the death
+	After      bool   `json:"after,omitempty"`       // unlockrace: the renewal in flight is applied before Unlock runs
+	Same       bool   `json:"same,omitempty"`        // handoff: the second tenure is on the same Locker object (else on another provider's)
+	DelayPct   int    `json:"delay_pct,omitempty"`   // hold: every renewal call takes this % of the lease to reach the storage
+	Waiters    int    `json:"waiters,omitempty"`     // death: number of lockers parked in Lock() when the holder dies (default 1)
+	Wait10     int    `json:"wait10,omitempty"`      // waithold: the second locker waits this many tenths of a lease in Lock() before it gets the lock
+	OnlyExcl   bool   `json:"only_excl,omitempty"`   // waithold: judge mutual exclusion only (C01), not the stored record (C05)
+	Acquire    string `json:"acquire,omitempty"`     // hold: "" = Lock(); "lockctx" / "trylock": acquired with a context that is cancelled right after the acquisition, on a storage that refuses done contexts
+	HoldCreate bool   `json:"hold_create,omitempty"` // relock: the Create of the second tenure is in flight while the late renewal of the first completes
+	Hold10     int    `json:"hold10,omitempty"`      // unlockfail: the lock is held this many tenths of a lease before the failing Unlock
+	Applied    bool   `json:"applied,omitempty"`     // unlockfail: the Delete is applied and only its reply is lost
 }
 
 var leaseMu sync.Mutex
@@ -95,6 +99,10 @@ func runLease(s LeaseScenario) (info LeaseInfo, v *vstat.Violation, exact bool) 
 		return runWaitHold(s)
 	case "bystander":
 		return runBystander(s)
+	case "relock":
+		return runRelock(s)
+	case "unlockfail":
+		return runUnlockFail(s)
 	}
 	panic("bad scenario " + s.Kind)
 }
@@ -123,7 +131,24 @@ func runHold(s LeaseScenario) (info LeaseInfo, v *vstat.Violation, exact bool) {
 	a, b := pa.NewLocker("lease"), pb.NewLocker("lease")
 	ctx := context.Background()
 	t0 := time.Now()
-	a.Lock()
+	switch s.Acquire {
+	case "lockctx", "trylock":
+		// the context bounds the acquisition only; once the call has returned, the caller is done with it
+		fa.HonourCtx = true
+		actx, cancel := context.WithCancel(ctx)
+		if s.Acquire == "lockctx" {
+			if err := a.LockWithCtx(actx); err != nil {
+				cancel()
+				return info, vstat.V("lease:cannot-acquire", "LockWithCtx on a free lock returned %v", err), true
+			}
+		} else if !a.TryLock(actx) {
+			cancel()
+			return info, vstat.V("lease:cannot-acquire", "TryLock on a free lock returned false"), true
+		}
+		cancel()
+	default:
+		a.Lock()
+	}
 	unlocked := false
 	defer func() {
 		if !unlocked {
@@ -526,6 +551,176 @@ func runBystander(s LeaseScenario) (info LeaseInfo, v *vstat.Violation, exact bo
 				}
 			}
 		}
+	}
+	return info, nil, false
+}
+
+// relock: a renewal of the first tenure is in flight (held before or after the storage applied it) while the holder
+// unlocks and THE SAME Locker is locked again at once; only then the late renewal completes. Optionally the Create of
+// the second tenure is itself in flight while the late renewal completes. The second tenure must be acquired (nothing
+// may have put a record back), its record stays present and unexpired for 2.5 leases, a contender stays excluded, and
+// after its Unlock the contender gets the lock.
+func runRelock(s LeaseScenario) (info LeaseInfo, v *vstat.Violation, exact bool) {
+	L := time.Duration(s.LeaseMs) * time.Millisecond
+	inner := inmem.New()
+	fa, fb := gated.NewFaulty(inner), gated.NewFaulty(inner)
+	pa, pb := newProvider(fa, L), newProvider(fb, L)
+	defer pa.Shutdown()
+	defer pb.Shutdown()
+	a, b := pa.NewLocker("lease"), pb.NewLocker("lease")
+	ctx := context.Background()
+	fa.HoldNextCas(s.After)
+	t0 := time.Now()
+	a.Lock()
+	select {
+	case <-fa.Held:
+		info.HeldInFlight = true
+	case <-time.After(L/2 + 5*time.Second):
+		a.Unlock()
+		return info, vstat.V("lease:renewal-missing", "lease %v: no renewal call reached the storage within %v of Lock", L, time.Since(t0)), false
+	}
+	a.Unlock()
+	ok := false
+	if s.HoldCreate {
+		fa.HoldNextCreate()
+		res := make(chan bool, 1)
+		go func() { res <- a.TryLock(ctx) }()
+		select {
+		case <-fa.CreateHeld:
+		case <-time.After(5 * time.Second):
+			close(fa.Resume)
+			close(fa.CreateResume)
+			return info, vstat.V("lease:relock-stuck", "lease %v: TryLock of the unlocked Locker made no Create call within 5s", L), false
+		}
+		close(fa.Resume)
+		// let the late renewal run to its end: its CasByVersion is logged once answered; then whatever it does next
+		dl := time.Now().Add(5 * time.Second)
+		for time.Now().Before(dl) {
+			n := 0
+			for _, e := range fa.Events() {
+				if e.Op == "cas" {
+					n++
+				}
+			}
+			if n > 0 {
+				break
+			}
+			time.Sleep(time.Millisecond)
+		}
+		time.Sleep(L/20 + 5*time.Millisecond)
+		close(fa.CreateResume)
+		ok = <-res
+	} else {
+		ok = a.TryLock(ctx)
+		close(fa.Resume)
+	}
+	if !ok {
+		_, err := inner.Get(ctx, leaseKey)
+		return info, vstat.V("lease:cannot-reacquire", "lease %v: the Locker was unlocked while its renewal was in flight; its TryLock right afterwards returns false although nobody holds the lock (record lookup: err=%v); storage calls:%s", L, err, describeEvents(fa.Events(), t0)), true
+	}
+	t1 := time.Now()
+	held := true
+	defer func() {
+		if held {
+			a.Unlock()
+		}
+	}()
+	for time.Since(t1) < 5*L/2 {
+		time.Sleep(L / 5)
+		info.Samples++
+		now := time.Now()
+		if b.TryLock(ctx) {
+			b.Unlock()
+			return info, vstat.V("lease:contender-acquired-while-held", "lease %v: %.1f leases into a tenure that started while a renewal of the same Locker's previous tenure was in flight, a contender acquired the held lock; storage calls:%s",
+				L, float64(now.Sub(t1))/float64(L), describeEvents(fa.Events(), t0)), false
+		}
+		if !s.OnlyExcl {
+			r, err := inner.Get(ctx, leaseKey)
+			if err != nil || r.ExpiresAt == nil || !r.ExpiresAt.After(now) {
+				return info, vstat.V("lease:second-tenure-lapsed", "lease %v: %.1f leases into a tenure that started while a renewal of the same Locker's previous tenure was in flight, its record is missing or expired (err=%v); storage calls:%s",
+					L, float64(now.Sub(t1))/float64(L), err, describeEvents(fa.Events(), t0)), false
+			}
+		}
+	}
+	a.Unlock()
+	held = false
+	if !b.TryLock(ctx) {
+		return info, vstat.V("lease:not-released", "lease %v: after the second Unlock a contender's TryLock returns false", L), true
+	}
+	b.Unlock()
+	if _, err := inner.Get(ctx, leaseKey); err == nil {
+		return info, vstat.V("lease:record-after-unlock", "lease %v: every holder has unlocked, the lock record is still in the storage; calls:%s", L, describeEvents(fa.Events(), t0)), true
+	}
+	return info, nil, false
+}
+
+// unlockfail: the Delete made by Unlock fails (request or reply lost). The tenure is over all the same: at most one
+// already armed renewal attempt reaches the storage afterwards and none succeeds, the record (if the Delete was not
+// applied) lapses at the expiration it had at that moment, and a contender then gets the lock.
+func runUnlockFail(s LeaseScenario) (info LeaseInfo, v *vstat.Violation, exact bool) {
+	L := time.Duration(s.LeaseMs) * time.Millisecond
+	inner := inmem.New()
+	fa, fb := gated.NewFaulty(inner), gated.NewFaulty(inner)
+	pa, pb := newProvider(fa, L), newProvider(fb, L)
+	defer pa.Shutdown()
+	defer pb.Shutdown()
+	a, b := pa.NewLocker("lease"), pb.NewLocker("lease")
+	ctx := context.Background()
+	t0 := time.Now()
+	a.Lock()
+	time.Sleep(L * time.Duration(s.Hold10) / 10)
+	fa.FailNextDelete(s.Applied)
+	a.Unlock()
+	unlockedAt := time.Now()
+	info.InjectedFailures = 1
+	exp := unlockedAt
+	if r, err := inner.Get(ctx, leaseKey); err == nil && r.ExpiresAt != nil {
+		exp = *r.ExpiresAt
+	}
+	judge := func() *vstat.Violation {
+		after, succeeded := 0, 0
+		for _, e := range fa.Events() {
+			if e.Op == "cas" && e.T.After(unlockedAt) {
+				after++
+				if e.Err == nil {
+					succeeded++
+				}
+			}
+		}
+		if succeeded > 0 {
+			return vstat.V("lease:renewal-succeeded-after-unlock", "lease %v: a renewal succeeded after Unlock (whose Delete failed) had returned; calls:%s", L, describeEvents(fa.Events(), t0))
+		}
+		if after > 1 {
+			return vstat.V("lease:renewal-continues-after-unlock", "lease %v: %d renewal attempts reached the storage after Unlock (whose Delete failed) had returned (at most one already armed attempt is allowed); calls:%s", L, after, describeEvents(fa.Events(), t0))
+		}
+		return nil
+	}
+	if w := time.Until(exp.Add(L / 10)); w > 0 {
+		time.Sleep(w)
+	}
+	if v := judge(); v != nil {
+		return info, v, true
+	}
+	info.Samples++
+	if !b.TryLock(ctx) {
+		_, err := inner.Get(ctx, leaseKey)
+		return info, vstat.V("lease:never-released", "lease %v: %v after Unlock (whose Delete failed), and past the expiration the record had then, a contender's TryLock returns false (record lookup: err=%v); calls:%s",
+			L, time.Since(unlockedAt), err, describeEvents(fa.Events(), t0)), true
+	}
+	// the contender now holds: what is left of the old tenure must not disturb it
+	t1 := time.Now()
+	for time.Since(t1) < 3*L/2 {
+		time.Sleep(L / 5)
+		now := time.Now()
+		r, err := inner.Get(ctx, leaseKey)
+		if err != nil || r.ExpiresAt == nil || !r.ExpiresAt.After(now) {
+			b.Unlock()
+			return info, vstat.V("lease:second-tenure-lapsed", "lease %v: the record of the contender that acquired after the failed Unlock is missing or expired %v after its start (err=%v); calls of the old holder:%s", L, now.Sub(t1), err, describeEvents(fa.Events(), t0)), false
+		}
+	}
+	b.Unlock()
+	if v := judge(); v != nil {
+		return info, v, true
 	}
 	return info, nil, false
 }
